@@ -55,6 +55,15 @@ Finish == phase = "read" /\ k > Len(prows) /\ phase' = "done" /\ UNCHANGED <<al,
 FilesNext == Write \/ Close \/ Read \/ Finish
 Done == phase = "done"
 
+(* Nakamura match (read only): one row per performed note (match or insertion, the score id "*" for an insertion);
+   score notes that were not played are listed in comment lines ("//Missing") and come back as deletions after all rows *)
+RECURSIVE Keep(_, _)
+Keep(a, wantDeletion) == IF a = <<>> THEN <<>>
+                         ELSE (IF (Head(a).label = "deletion") = wantDeletion THEN <<Head(a)>> ELSE <<>>) \o Keep(Tail(a), wantDeletion)
+NBack(a) == Keep(a, FALSE) \o Keep(a, TRUE)
+NakamuraOrder == Done => /\ Len(NBack(al)) = Len(al)
+                         /\ \A j \in 1..Len(al) : \E m \in 1..Len(al) : NBack(al)[m] = al[j]
+
 (* the parangonada directory holds the alignment twice: align.csv and zalign.csv (a second alignment to compare with,
    the first one again when none is given); each is written and read like the alignment above *)
 ZAlignWritten(a, z, given) == IF given THEN z ELSE a
